@@ -23,7 +23,15 @@ pub enum Fault {
     /// torn write: prefix of this file up to `at`, then `tail` (the suffix of another module)
     Splice { at: usize, tail_hex: String },
     /// a LEB field of `old_len` bytes at `at` replaced by `value` encoded in `new_len` bytes
-    LebReplace { at: usize, old_len: usize, value: u32, new_len: usize },
+    LebReplace {
+        at: usize,
+        old_len: usize,
+        value: u32,
+        new_len: usize,
+        /// re-encode the size of the enclosing section (and function body) so that only this field is wrong
+        #[serde(default)]
+        fix_framing: bool,
+    },
     SectionDrop { idx: usize },
     SectionDup { idx: usize },
     SectionSwap { a: usize, b: usize },
@@ -31,7 +39,15 @@ pub enum Fault {
     Graft { kind: u8 },
     /// an edit inside function body `func` of the code section (what a buggy producer writes):
     /// `del` bytes at body offset `at` replaced by `ins`, with the body size and section size re-encoded
-    BodyEdit { func: usize, at: usize, del: usize, ins_hex: String },
+    BodyEdit {
+        func: usize,
+        at: usize,
+        del: usize,
+        ins_hex: String,
+        /// 0 opcode snippet, 1 over-long LEB, 2 multi-memory memarg bit, 3 two-byte zero index
+        #[serde(default)]
+        tag: u8,
+    },
 }
 
 impl Fault {
@@ -49,7 +65,13 @@ impl Fault {
             Fault::SectionDup { .. } => "section_dup",
             Fault::SectionSwap { .. } => "section_swap",
             Fault::Graft { .. } => "feature_graft",
-            Fault::BodyEdit { .. } => "body_edit",
+            Fault::BodyEdit { tag, .. } => match tag {
+                1 => "overlong_leb_in_body",
+                2 => "memarg_multi_memory_bit",
+                3 => "two_byte_zero_index",
+                4 => "leb_replace_framing_fixed",
+                _ => "body_edit",
+            },
         }
     }
 }
@@ -57,6 +79,18 @@ impl Fault {
 /// Apply one fault.  Returns false if it could not fire on these bytes
 /// (out of range after an earlier fault changed the layout).
 pub fn apply(b: &mut Vec<u8>, f: &Fault) -> bool {
+    // defensive: a bounds slip in the injector must never take a worker down
+    let mut copy = b.clone();
+    match std::panic::catch_unwind(std::panic::AssertUnwindSafe(|| apply_inner(&mut copy, f))) {
+        Ok(true) => {
+            *b = copy;
+            true
+        }
+        _ => false,
+    }
+}
+
+fn apply_inner(b: &mut Vec<u8>, f: &Fault) -> bool {
     match f {
         Fault::Truncate { at } => {
             if *at >= b.len() {
@@ -121,11 +155,35 @@ pub fn apply(b: &mut Vec<u8>, f: &Fault) -> bool {
             b.extend_from_slice(&tail);
             true
         }
-        Fault::LebReplace { at, old_len, value, new_len } => {
+        Fault::LebReplace { at, old_len, value, new_len, fix_framing } => {
             if *at + *old_len > b.len() {
                 return false;
             }
             let enc = leb_u32_padded(*value, (*new_len).clamp(1, 5));
+            if *fix_framing {
+                // keep every enclosing length field consistent: function body (if inside one), then section
+                let Some(secs) = wasmsplit::split(b) else { return false };
+                let Some(sec) = secs.iter().find(|s| s.payload.contains(at)) else { return false };
+                if sec.id == 10 {
+                    if let Some(bodies) = code_bodies(b, sec) {
+                        if let Some((k, body)) = bodies.iter().enumerate().find(|(_, r)| r.contains(at)) {
+                            let f = Fault::BodyEdit { func: k, at: *at - body.start, del: *old_len, ins_hex: wasmsplit::hex(&enc), tag: 4 };
+                            return apply_inner(b, &f);
+                        }
+                    }
+                }
+                if *at + *old_len > sec.payload.end {
+                    return false;
+                }
+                let mut payload = b[sec.payload.start..*at].to_vec();
+                payload.extend_from_slice(&enc);
+                payload.extend_from_slice(&b[*at + *old_len..sec.payload.end]);
+                let mut out = vec![sec.id];
+                wasmsplit::write_leb_u32(payload.len() as u32, &mut out);
+                out.extend_from_slice(&payload);
+                b.splice(sec.range.clone(), out);
+                return true;
+            }
             b.splice(*at..*at + *old_len, enc);
             true
         }
@@ -159,7 +217,7 @@ pub fn apply(b: &mut Vec<u8>, f: &Fault) -> bool {
             *b = out;
             true
         }
-        Fault::BodyEdit { func, at, del, ins_hex } => {
+        Fault::BodyEdit { func, at, del, ins_hex, .. } => {
             let Some(ins) = wasmsplit::unhex(ins_hex) else { return false };
             let Some(secs) = wasmsplit::split(b) else { return false };
             let Some(code) = secs.iter().find(|s| s.id == 10) else { return false };
@@ -344,8 +402,14 @@ fn leb_sites(b: &[u8], secs: &[Section]) -> Vec<(usize, usize)> {
                 for _ in 0..count.min(2000) {
                     let Some((sz, m)) = read_leb_u32(b, p) else { break };
                     out.push((p, m));
-                    if let Some((_, l)) = read_leb_u32(b, p + m) {
+                    if let Some((groups, l)) = read_leb_u32(b, p + m) {
                         out.push((p + m, l));
+                        // the run count of the first local-declaration group: drives per-local work
+                        if groups > 0 {
+                            if let Some((_, r)) = read_leb_u32(b, p + m + l) {
+                                out.push((p + m + l, r));
+                            }
+                        }
                     }
                     p += m + sz as usize;
                     if p >= s.payload.end {
@@ -370,7 +434,7 @@ fn leb_sites(b: &[u8], secs: &[Section]) -> Vec<(usize, usize)> {
 pub fn draw(rng: &mut Rng, b: &[u8], others: &[Vec<u8>], enabled: u32) -> Option<Fault> {
     let secs = wasmsplit::split(b);
     for _ in 0..20 {
-        let k = rng.below(14) as u32;
+        let k = rng.below(17) as u32;
         if enabled & (1 << k) == 0 {
             continue;
         }
@@ -427,7 +491,7 @@ pub fn draw(rng: &mut Rng, b: &[u8], others: &[Vec<u8>], enabled: u32) -> Option
                     let v = if rng.bool() { cur.wrapping_add(1) } else { cur.wrapping_sub(1) };
                     (v, wasmsplit::leb_u32(v).len().max(if rng.bool() { old_len } else { 0 }))
                 };
-                Fault::LebReplace { at, old_len, value, new_len }
+                Fault::LebReplace { at, old_len, value, new_len, fix_framing: rng.chance(2, 3) }
             }
             9 => {
                 let Some(s) = &secs else { continue };
@@ -441,6 +505,81 @@ pub fn draw(rng: &mut Rng, b: &[u8], others: &[Vec<u8>], enabled: u32) -> Option
                 }
             }
             10 => Fault::Graft { kind: rng.below(3) as u8 },
+            14 | 15 | 16 => {
+                // encodings that only a later proposal makes legal, inside an otherwise unchanged body
+                let Some(s) = &secs else { continue };
+                let Some(code) = s.iter().find(|x| x.id == 10) else { continue };
+                let Some(bodies) = code_bodies(b, code) else { continue };
+                if bodies.is_empty() {
+                    continue;
+                }
+                let func = rng.usize_below(bodies.len());
+                let body = bodies[func].clone();
+                if k == 14 {
+                    // a LEB somewhere in the body re-encoded with redundant continuation bytes
+                    // (over-long index / offset encodings: multi-memory, memory64)
+                    if body.is_empty() {
+                        continue;
+                    }
+                    let at = rng.usize_below(body.len());
+                    let Some((v, n)) = read_leb_u32(b, body.start + at) else { continue };
+                    if at + n > body.len() {
+                        continue;
+                    }
+                    let new_len = (n + 1 + rng.usize_below(5)).min(10);
+                    Fault::BodyEdit { func, at, del: n, ins_hex: wasmsplit::hex(&leb_u32_padded(v, new_len)), tag: 1 }
+                } else {
+                    // locate operators with wasmparser's reader (independent of walrus)
+                    let mut sites: Vec<(usize, u8)> = Vec::new();
+                    let mut r = wasmparser::BinaryReader::new(&b[body.clone()], 0, wasmparser::WasmFeatures::all());
+                    let ok = (|| -> Option<()> {
+                        let groups = r.read_var_u32().ok()?;
+                        for _ in 0..groups {
+                            r.read_var_u32().ok()?;
+                            r.read::<wasmparser::ValType>().ok()?;
+                        }
+                        while !r.eof() {
+                            let pos = r.original_position();
+                            let op = r.read_operator().ok()?;
+                            let opcode = b[body.start + pos];
+                            let _ = op;
+                            sites.push((pos, opcode));
+                        }
+                        Some(())
+                    })();
+                    let _ = ok;
+                    if k == 15 {
+                        // memarg with the multi-memory bit and an explicit memory index 0
+                        let mems: Vec<usize> = sites.iter().filter(|(_, o)| (0x28..=0x3e).contains(o)).map(|(p, _)| *p).collect();
+                        if mems.is_empty() {
+                            continue;
+                        }
+                        let pos = *rng.pick(&mems);
+                        let flags = b[body.start + pos + 1];
+                        if flags & 0xc0 != 0 {
+                            continue;
+                        }
+                        Fault::BodyEdit { func, at: pos + 1, del: 1, ins_hex: wasmsplit::hex(&[flags | 0x40, 0x00]), tag: 2 }
+                    } else {
+                        // memory.size / memory.grow / call_indirect table byte as a two-byte zero
+                        let cands: Vec<(usize, usize)> = sites
+                            .iter()
+                            .filter_map(|(p, o)| match o {
+                                0x3f | 0x40 => Some((*p + 1, 1)),
+                                _ => None,
+                            })
+                            .collect();
+                        if cands.is_empty() {
+                            continue;
+                        }
+                        let (pos, n) = *rng.pick(&cands);
+                        if b[body.start + pos] != 0 {
+                            continue;
+                        }
+                        Fault::BodyEdit { func, at: pos, del: n, ins_hex: wasmsplit::hex(&[0x80, 0x00]), tag: 3 }
+                    }
+                }
+            }
             12 | 13 => {
                 let Some(s) = &secs else { continue };
                 let Some(code) = s.iter().find(|x| x.id == 10) else { continue };
@@ -461,7 +600,7 @@ pub fn draw(rng: &mut Rng, b: &[u8], others: &[Vec<u8>], enabled: u32) -> Option
                 if ins.is_empty() && del == 0 {
                     continue;
                 }
-                Fault::BodyEdit { func, at, del, ins_hex: wasmsplit::hex(ins) }
+                Fault::BodyEdit { func, at, del, ins_hex: wasmsplit::hex(ins), tag: 0 }
             }
             _ => {
                 // an index LEB anywhere in the code section: treat a random code byte position as a LEB
@@ -473,7 +612,7 @@ pub fn draw(rng: &mut Rng, b: &[u8], others: &[Vec<u8>], enabled: u32) -> Option
                 let at = code.payload.start + rng.usize_below(code.payload.len());
                 let Some((cur, n)) = read_leb_u32(b, at) else { continue };
                 let v = if rng.bool() { cur.wrapping_add(1) } else { *rng.pick(&[0u32, 1, 127, 128, 1000, u32::MAX]) };
-                Fault::LebReplace { at, old_len: n, value: v, new_len: wasmsplit::leb_u32(v).len() }
+                Fault::LebReplace { at, old_len: n, value: v, new_len: wasmsplit::leb_u32(v).len(), fix_framing: rng.bool() }
             }
         };
         return Some(f);
